@@ -17,7 +17,9 @@ def lit(b):
 
 TEXTS = [None, b"done", b"", b'with "quotes" and \\ backslash', b"\xc3\xa9t\xc3\xa9", b"(not a code)", b"{3}", b"OK NO BYE", b"two\r\nlines", b"near ${1} {2} end",
          # a text that itself ends with line ends (a compile report): they are part of the text
-         b"script errors:\r\nline 1: syntax error\r\n", b"ends with lf\n", b"cr at the end\r", b"blank line after\r\n\r\n"]
+         b"script errors:\r\nline 1: syntax error\r\n", b"ends with lf\n", b"cr at the end\r", b"blank line after\r\n\r\n",
+         # long texts of multi-byte characters at every alignment (a limit counted in octets must not cut a character in two)
+         "é".encode() * 130, b"a" + "é".encode() * 130, "€".encode() * 90, b"a" + "€".encode() * 90, b"ab" + "€".encode() * 90]
 CODES = [None, b"QUOTA", b"QUOTA/MAXSIZE", b"NONEXISTENT", b"ACTIVE", b"ALREADYEXISTS", b"TRYLATER", b"WARNINGS", b'TAG "abc"', b'TAG "a)b\\"c"', b"x-vendor/sub-code_1"]
 
 
@@ -68,7 +70,7 @@ def cases(r, n_status=6):
     # every text of the table at least once per status, quoted and as a literal, with and without a code — whatever the sample
     # above happened to pick (the operation rotates)
     k = 0
-    for st in (b"OK", b"NO"):
+    for st in (b"OK", b"NO", b"BYE"):
         for text in TEXTS:
             if text is None:
                 continue
@@ -85,10 +87,15 @@ def cases(r, n_status=6):
             out.append(("getscript", ("n",), lit(body) + b"\r\n" + line, {"status": "OK", "body": body}))
     for line, code, text in status_lines(r, b"NO", n_status):
         out.append(("getscript", ("n",), line, {"status": "NO", "code": code, "text": text}))
-    for _ in range(12):
-        l, names, active = listing(r)
+    for k_ in range(18):
+        # the last third: names sent as literals (a literal that does not end in CRLF, followed by ` ACTIVE` on the same line)
+        l, names, active = listing(r, literal_names=(k_ >= 12))
         for line, code, text in status_lines(r, b"OK", 1):
             out.append(("listscripts", (), l + line, {"status": "OK", "names": names, "active": active}))
+    # listings in which the ACTIVE script's name is a literal: the literal does not end in CRLF and ` ACTIVE` follows on its line
+    for l in (b'{4}\r\nma"n ACTIVE\r\n"other"\r\nOK\r\n', b'"a"\r\n{3}\r\nxyz ACTIVE\r\nOK "done"\r\n', b'{2}\r\nab ACTIVE\r\n{1}\r\nc\r\nOK\r\n',
+              b'{6}\r\n\xc3\xa9t\xc3\xa9\r\n"z" ACTIVE\r\nOK\r\n'):
+        out.append(("listscripts", (), l, {"status": "OK", "directed": True}))
     for line, code, text in status_lines(r, b"NO", 3):
         out.append(("listscripts", (), line, {"status": "NO", "code": code, "text": text}))
     out.append(("capability", (), GREETING, {"status": "OK"}))
